@@ -400,7 +400,7 @@ Proof. revert ra. induction gs as [|g gs IH]; intros ra Hok Hfree Hc; [reflexivi
 
 Lemma struct_attrs_container c : in_domain c = true -> kf_rename_text c = false ->
   struct_attrs (map cgroup_string (c_attrs c)) = container_rule c.
-Proof. unfold in_domain. intros H Htext. apply andb_true_iff in H as [H _]. apply andb_true_iff in H as [H Hc]. apply andb_true_iff in H as [_ Hok].
+Proof. unfold in_domain. intros H Htext. apply andb_true_iff in H as [H _]. unfold in_domain0 in H. apply andb_true_iff in H as [H _]. apply andb_true_iff in H as [H Hc]. apply andb_true_iff in H as [_ Hok].
   unfold struct_attrs, container_rule. rewrite struct_attrs_groups; [|exact Hok| |apply Nat.leb_le; exact Hc].
   - destruct (first_rename_all (concat (c_attrs c))); reflexivity.
   - intros m Hm Hr. unfold kf_rename_text in Htext. apply orb_false_iff in Htext as [_ Htext].
@@ -465,8 +465,17 @@ Lemma ident_ok_parts s : ident_ok s = true ->
 Proof. unfold ident_ok. intros H. apply andb_true_iff in H as [H H3]. apply andb_true_iff in H as [H1 H2].
   split; [exact H2|]. split; [exact H3|]. destruct s; [discriminate|exact H1]. Qed.
 
-Lemma apply_field_ok r s : ident_ok s = true -> apply_naming_convention r s = field_rule r s.
-Proof. intros H. destruct (ident_ok_parts s H) as (Hc & Hn & _). destruct r; try reflexivity.
+Lemma ident_ok_uident s : ident_ok s = true -> uident_ok s = true.
+Proof. unfold ident_ok, uident_ok. intros H. apply andb_true_iff in H as [H H3]. apply andb_true_iff in H as [H1 H2].
+  rewrite H3, andb_true_r. apply andb_true_iff. split.
+  - destruct s as [|c s]; [discriminate|]. unfold uident_start. rewrite H1. reflexivity.
+  - clear H1 H3. induction s as [|c s IH]; [reflexivity|]. cbn [forallb] in *. apply andb_true_iff in H2 as [Hc H2].
+    rewrite (IH H2), andb_true_r. unfold uident_char. rewrite Hc. reflexivity. Qed.
+(* only the non-underscore character matters: the statement holds for every UTF-8 identifier *)
+Lemma apply_field_ok r s : uident_ok s = true -> apply_naming_convention r s = field_rule r s.
+Proof. intros H. assert (existsb (fun c => negb (is_us c)) s = true) as Hn.
+  { unfold uident_ok in H. apply andb_true_iff in H as [_ H]. exact H. }
+  destruct r; try reflexivity.
   cbn [apply_naming_convention field_rule]. pose proof (pascal_nonempty true s Hn) as Hne.
   unfold camel_guard, lower_first. destruct (pascal true s) as [|c rest]; [congruence|reflexivity]. Qed.
 
